@@ -272,6 +272,10 @@ impl Monitor for C06 {
             if e.lp_fee as u128 != lp_total || e.protocol_fee as u128 != sum_cut || e.pre_sqrt_price != pre.sqrt_price || e.post_sqrt_price != post.sqrt_price {
                 fail(acc, "event_mismatch", format!("Traded {e:?} vs observed lp {lp_total} protocol {sum_cut} pre {} post {}", pre.sqrt_price, post.sqrt_price));
             }
+            // ... and so are the amounts that moved and what the token program withheld on either side
+            if in_user != out_user && (e.input_amount as i128 != paid || e.output_amount as i128 != vout || e.input_transfer_fee as i128 != paid - vin || e.output_transfer_fee as i128 != vout - got) {
+                fail(acc, "event_mismatch", format!("Traded reports in {} (withheld {}) out {} (withheld {}); observed: trader paid {paid}, vault received {vin}, vault paid {vout}, trader received {got}", e.input_amount, e.input_transfer_fee, e.output_amount, e.output_transfer_fee));
+            }
         } else {
             let e = &ev[0];
             let lp_total = sum_fee.to_u128().unwrap() - sum_cut;
